@@ -182,15 +182,13 @@ def stepLine (wd : World) (line : String) : World × String :=
     let cov := stepCoveredG P wd.w (.delGlobal x)
     ({ wd with w := stepG P wd.w (.delGlobal x) }, (if acc then "acc" else "rej") ++ (if cov then "" else " UNCOVERED"))
   | ["renamespace", p, new] =>
-    -- `space.rename(new)`: `stepR`; `SLOTS`: a declared attribute slot lies in a relabelled space (the
-    -- theorems' side condition `slotsFixed` fails: the harness ends the comparison of this history)
+    -- `space.rename(new)`: `stepR` (declared slots keep their spelling: `Tabs.spell`)
     let acc := match wd.w.sm.renameSpace kw (pathOf p) new with
       | .ok _ => true
       | .error _ => false
     let cov := stepCoveredR P wd.w (.renameSpace (pathOf p) new)
-    let fixed := slotsFixed wd.w.tabs (pathOf p) new
     ({ wd with w := stepR P wd.w (.renameSpace (pathOf p) new) },
-      (if acc then "acc" else "rej") ++ (if cov then "" else " UNCOVERED") ++ (if fixed then "" else " SLOTS"))
+      (if acc then "acc" else "rej") ++ (if cov then "" else " UNCOVERED"))
   | ["nodes"] =>
     -- the cells that have a node in the trace graph (`space.cells`, sorted, without repetition)
     (wd, ",".intercalate (sorted ((wd.w.ex.gn.map (fun g =>
